@@ -27,6 +27,7 @@ static void my_parse(Parse* ps, const uint8_t* src, size_t n, const uint8_t* dic
     unsigned const rep_pct = (unsigned)rng_below(r, 3) == 0 ? 90 : (unsigned)rng_below(r, 50);
     size_t const maxml = rng_coin(r, 1, 4) ? mm + rng_below(r, 40) : rng_coin(r, 1, 2) ? (size_t)1 << 30 : 3 + rng_size(r, 200000);
     unsigned const hb = mm < 4 ? 3 : 4;
+    size_t const minlen = rng_coin(r, 1, 4) ? 64 + (size_t)rng_below(r, 1500) : mm;   /* sparse parses: few sequences per block */
     memset(tab, 0xff, sizeof(uint32_t) << HL);
     ps->n = 0; ps->tail = 0;
 #define RD(pos) ((pos) < D ? dict[pos] : src[(pos) - D])
@@ -43,7 +44,7 @@ static void my_parse(Parse* ps, const uint8_t* src, size_t n, const uint8_t* dic
             if (o == 0 || o > i + D) continue;
             lim = n - i; if (lim > maxml) lim = maxml;
             for (len = 0; len < lim && RD(c - o + len) == src[i + len]; len++) {}
-            if (len < mm) continue;
+            if (len < mm || len < minlen) continue;
             /* offset admissibility */
             if (o > i) { if (i + len > W) { if (i >= W || o > i) { /* reaching the dictionary needs end<=W */ size_t cut = W > i ? W - i : 0; if (cut < mm) continue; len = cut; } } }
             else if (o > W) continue;
@@ -190,7 +191,7 @@ static void gen(Plan* p, Rng* r, int tier, long idx) {
     plan_set(p, "c.enableSeqProducerFallback", (int64_t)rng_below(r, 2));
     plan_set(p, "parse_seed", (int64_t)(rng_u64(r) >> 2));
     plan_set(p, "dict_kind", 0);
-    if (mode <= 1 && rng_coin(r, 1, 3)) { plan_set(p, "dict_kind", 1); plan_set(p, "dict_size", (int64_t)(8 + rng_size(r, 60000))); plan_set(p, "dict_seed", (int64_t)(rng_u64(r) >> 2)); plan_set(p, "dict_mode", (int64_t)rng_below(r, 3)); /* 0 loadDictionary(raw) 1 refPrefix 2 refCDict */ }
+    if (mode <= 1 && rng_coin(r, 1, 3)) { plan_set(p, "dict_kind", rng_coin(r, 1, 2) ? 1 : 2);   /* 1 raw content, 2 structured (entropy tables + content) */ plan_set(p, "dict_size", (int64_t)(8 + rng_size(r, 60000))); plan_set(p, "dict_seed", (int64_t)(rng_u64(r) >> 2)); plan_set(p, "dict_mode", (int64_t)rng_below(r, 3)); /* 0 loadDictionary(raw) 1 refPrefix 2 refCDict */ }
     /* list faults (modes 0..3): 0 none; 1 offset beyond history; 2 offset beyond window; 3 match too short; 4 drop last delimiter; 5 malformed delimiter;
      * 6 lengths exceed source; 7 lengths fall short of source; 8 block larger than the block size; 9 arbitrary field corruption */
     plan_set(p, "corrupt", 0);
@@ -228,14 +229,18 @@ static size_t stream_all(ZSTD_CCtx* c, uint8_t* dst, size_t cap, const uint8_t* 
 static void exec(const Plan* p) {
     Sess s; ZSTD_CCtx* c; Rng r; Parse ps; SeqList l; size_t cap, ret = 0, W, bmax; uint8_t* dst; const char* e; ZSTD_CDict* cd = NULL;
     int const mode = (int)plan_get(p, "mode", 0), corrupt = (int)plan_get(p, "corrupt", 0), combo = (int)plan_get(p, "combo", 0);
-    unsigned const mm = (unsigned)sess_get_cparam(p, "minMatch", 3); int const validate = sess_get_cparam(p, "validateSequences", 0), fallback = sess_get_cparam(p, "enableSeqProducerFallback", 0);
+    unsigned const mm0 = (unsigned)sess_get_cparam(p, "minMatch", 3), mm = mm0 < 3 ? 3 : mm0 > 7 ? 7 : mm0;   /* minimised plans may carry any value */ int const validate = sess_get_cparam(p, "validateSequences", 0), fallback = sess_get_cparam(p, "enableSeqProducerFallback", 0);
     int const explicit_delims = sess_get_cparam(p, "blockDelimiters", 0); int expect = 0;  /* 0 must succeed, 1 must fail, 2 either (memory safety only) */
+    int structured = 0; const uint8_t* dc = NULL; size_t dcn = 0; unsigned want_id = 0;
     int expect_code = 0; long const afail = (long)plan_get(p, "alloc_fail", 0); Prod pr; ZSTD_Sequence* seqbuf = NULL;
     memset(&ps, 0, sizeof ps); memset(&l, 0, sizeof l); memset(&pr, 0, sizeof pr); g_cdesc[0] = 0;
     sess_init(&s); sess_make_input(&s, p);
-    if (plan_get(p, "dict_kind", 0)) { Rng rd; size_t dn = (size_t)plan_get(p, "dict_size", 8); rng_seed(&rd, (uint64_t)plan_get(p, "dict_seed", 1), "dict"); s.dict = (uint8_t*)malloc(dn + 1); s.dict_size = dn; s.dict_raw = 1;
+    if (plan_get(p, "dict_kind", 0) == 2) { sess_make_dict(&s, p); if (s.dict && s.dict_size > 8 && s.dict[0] == 0x37 && s.dict[1] == 0xA4 && s.dict[2] == 0x30 && s.dict[3] == 0xEC) { size_t const hs = ZDICT_getDictHeaderSize(s.dict, s.dict_size); if (!ZDICT_isError(hs) && hs < s.dict_size) { structured = 1; dc = s.dict + hs; dcn = s.dict_size - hs; sim_probe("c17.structured_dict"); } } if (!structured) { free(s.dict); s.dict = NULL; s.dict_size = 0; } }
+    if (plan_get(p, "dict_kind", 0) && !structured) { Rng rd; size_t dn = (size_t)plan_get(p, "dict_size", 8); rng_seed(&rd, (uint64_t)plan_get(p, "dict_seed", 1), "dict"); s.dict = (uint8_t*)malloc(dn + 1); s.dict_size = dn; s.dict_raw = 1;
         /* raw content related to the input so that matches into it exist */
-        gen_input(&rd, (int)plan_get(p, "in_kind", 0), s.dict, dn); if (s.in_size && dn) { size_t k; for (k = 0; k < dn; k += 97) { size_t len = dn - k < 61 ? dn - k : 61, from = (size_t)rng_below(&rd, s.in_size); if (from + len > s.in_size) len = s.in_size - from; memcpy(s.dict + k, s.in + from, len); } } }
+        gen_input(&rd, (int)plan_get(p, "in_kind", 0), s.dict, dn); if (s.in_size && dn) { size_t k; for (k = 0; k < dn; k += 97) { size_t len = dn - k < 61 ? dn - k : 61, from = (size_t)rng_below(&rd, s.in_size); if (from + len > s.in_size) len = s.in_size - from; memcpy(s.dict + k, s.in + from, len); } }
+        if (dn >= 4 && s.dict[0] == 0x37 && s.dict[1] == 0xA4 && s.dict[2] == 0x30 && s.dict[3] == 0xEC) s.dict[0] = 0;
+        dc = s.dict; dcn = dn; }
     rng_seed(&r, (uint64_t)plan_get(p, "parse_seed", 1), "parse");
     W = (size_t)1 << sess_get_cparam(p, "windowLog", 23); bmax = applied_bmax(p);
     c = ZSTD_createCCtx_advanced(sess_cmem());
@@ -244,14 +249,15 @@ static void exec(const Plan* p) {
     sess_apply_cparams(c, p);
     if (s.dict) {
         int const dm = (int)plan_get(p, "dict_mode", 0); size_t dr = 0;
-        if (dm == 0) dr = ZSTD_CCtx_loadDictionary_advanced(c, s.dict, s.dict_size, ZSTD_dlm_byCopy, ZSTD_dct_rawContent);
+        if (dm == 0 || (dm == 1 && structured)) dr = ZSTD_CCtx_loadDictionary_advanced(c, s.dict, s.dict_size, ZSTD_dlm_byCopy, structured ? ZSTD_dct_fullDict : ZSTD_dct_rawContent);
         else if (dm == 1) dr = ZSTD_CCtx_refPrefix_advanced(c, s.dict, s.dict_size, ZSTD_dct_rawContent);
-        else { ZSTD_compressionParameters cp = ZSTD_getCParams(sess_get_cparam(p, "compressionLevel", 3), s.in_size, s.dict_size); cp.windowLog = (unsigned)sess_get_cparam(p, "windowLog", 23); cp.minMatch = mm; /* a digested dictionary brings its own cParams: they must allow the parse */ cd = ZSTD_createCDict_advanced(s.dict, s.dict_size, ZSTD_dlm_byRef, ZSTD_dct_rawContent, cp, sess_cmem()); if (cd) dr = ZSTD_CCtx_refCDict(c, cd); else { free(s.dict); s.dict = NULL; s.dict_size = 0; } }
-        if (ZSTD_isError(dr)) sim_violation("dict_load_refused", "raw-content dictionary refused: %s", ZSTD_getErrorName(dr));
+        else { ZSTD_compressionParameters cp = ZSTD_getCParams(sess_get_cparam(p, "compressionLevel", 3), s.in_size, s.dict_size); cp.windowLog = (unsigned)sess_get_cparam(p, "windowLog", 23); cp.minMatch = mm; /* a digested dictionary brings its own cParams: they must allow the parse */ cd = ZSTD_createCDict_advanced(s.dict, s.dict_size, ZSTD_dlm_byRef, structured ? ZSTD_dct_fullDict : ZSTD_dct_rawContent, cp, sess_cmem()); if (cd) dr = ZSTD_CCtx_refCDict(c, cd); else { free(s.dict); s.dict = NULL; s.dict_size = 0; dc = NULL; dcn = 0; structured = 0; } }
+        if (ZSTD_isError(dr)) sim_violation("dict_load_refused", "%s dictionary refused: %s", structured ? "structured" : "raw-content", ZSTD_getErrorName(dr));
+        if (structured && sess_get_cparam(p, "dictIDFlag", 1)) want_id = ZDICT_getDictID(s.dict, s.dict_size);
     }
     /* ---- build the list ---- */
     if (mode <= 1) {
-        my_parse(&ps, s.in, s.in_size, s.dict, s.dict_size, mm, W, &r);
+        my_parse(&ps, s.in, s.in_size, dc, dcn, mm, W, &r);
         if (mode == 0) to_explicit(&l, &ps, s.in_size, bmax < 1 ? 1 : bmax, mm, &r); else to_nodelim(&l, &ps);
         if (mode == 1) { /* two long lengths may not meet in one block, and the library decides the blocks: demote later long lengths in any 128 KiB neighbourhood */
             size_t k, lastlong = (size_t)-1, pos = 0; for (k = 0; k < l.n; k++) { int const lg = l.s[k].litLength >= 65536 || l.s[k].matchLength >= 65536 + 3; if (lg) { if (l.s[k].litLength >= 65536 && l.s[k].matchLength >= 65539) { l.n = k; break; } if (lastlong != (size_t)-1 && pos - lastlong < ((size_t)300 << 10)) { l.n = k; break; } lastlong = pos; } pos += l.s[k].litLength + l.s[k].matchLength; }
@@ -271,7 +277,7 @@ static void exec(const Plan* p) {
     if (mode <= 3) {
         /* the list must be a valid parse by the model before it is used as one */
         unsigned const minml = 3;
-        e = model_check(l.s, l.n, explicit_delims, s.in, s.in_size, s.dict, s.dict_size, W, (size_t)128 << 10, minml);
+        e = model_check(l.s, l.n, explicit_delims, s.in, s.in_size, dc, dcn, W, (size_t)128 << 10, minml);
         if (e) { if (mode >= 2) sim_violation("extract_invalid", "library-extracted sequences are not a valid parse: %s", e); sim_violation("harness", "own parse invalid: %s", e); }
         if (mode <= 1 && mm >= 4) { size_t k; for (k = 0; k < l.n; k++) if (l.s[k].matchLength && l.s[k].matchLength < mm) sim_violation("harness", "own parse has ml %u < minMatch %u", l.s[k].matchLength, mm); }
         if (mode >= 2 && mm >= 4) { /* extracted lists may legitimately contain 3-byte matches only if the compressor's minMatch was 3 */ size_t k; for (k = 0; k < l.n; k++) if (l.s[k].matchLength == 3) sim_probe("c17.extracted_ml3_with_mm4"); }
@@ -287,15 +293,15 @@ static void exec(const Plan* p) {
             pick = (size_t)rng_below(&rc, nm);
             for (k = 0; k < l.n; k++) { if (l.s[k].matchLength) { if (!pick) break; pick--; } pos += l.s[k].litLength + l.s[k].matchLength; }
             pos += l.s[k].litLength;   /* position at the start of the match */
-            if (corrupt == 1 && !s.dict_size && rng_coin(&rc, 1, 3)) { /* first match of the frame given one of the initial repeat offsets (1,4,8) that its position cannot reach */
+            if (corrupt == 1 && !dcn && rng_coin(&rc, 1, 3)) { /* first match of the frame given one of the initial repeat offsets (1,4,8) that its position cannot reach */
                 size_t kk, pp = 0; for (kk = 0; kk < l.n && !l.s[kk].matchLength; kk++) pp += l.s[kk].litLength; pp += l.s[kk].litLength;
                 if (pp < 8) { k = kk; pos = pp; l.s[k].offset = pp < 4 && rng_coin(&rc, 1, 2) ? 4 : 8; sim_fault_fired("list_offset_initial_repcode"); break; } }
             if (corrupt == 1) { /* beyond the history available at the match start (and beyond window + dictionary under any reading) */
-                size_t const lim = (pos < W ? pos : W) + s.dict_size; l.s[k].offset = (unsigned)(lim + 1 + (rng_coin(&rc, 1, 2) ? 0 : rng_below(&rc, 1 + (rng_coin(&rc, 1, 2) ? l.s[k].matchLength : (1u << 20)))));
+                size_t const lim = (pos < W ? pos : W) + dcn; l.s[k].offset = (unsigned)(lim + 1 + (rng_coin(&rc, 1, 2) ? 0 : rng_below(&rc, 1 + (rng_coin(&rc, 1, 2) ? l.s[k].matchLength : (1u << 20)))));
                 sim_fault_fired("list_offset_beyond_history"); }
             else if (corrupt == 2) { /* beyond the window: needs a match starting past the window */
                 if (pos <= W) { size_t kk, pp = pos + l.s[k].matchLength; for (kk = k + 1; kk < l.n; kk++) { pp += l.s[kk].litLength; if (l.s[kk].matchLength && pp > W) break; pp += l.s[kk].matchLength; } if (kk >= l.n) { expect = 0; break; } k = kk; pos = pp; }
-                l.s[k].offset = (unsigned)(W + s.dict_size + 1 + rng_below(&rc, 1 + (rng_coin(&rc, 1, 2) ? 8 : pos)));
+                l.s[k].offset = (unsigned)(W + dcn + 1 + rng_below(&rc, 1 + (rng_coin(&rc, 1, 2) ? 8 : pos)));
                 sim_fault_fired("list_offset_beyond_window"); }
             else { l.s[k].matchLength = (unsigned)rng_below(&rc, 3); sim_fault_fired("list_match_too_short"); }
             break;
@@ -328,7 +334,7 @@ static void exec(const Plan* p) {
         }
         if (expect == 1 && s.in_size == 0) { expect = 2; sim_probe("c17.empty_source_list_ignored"); }   /* an empty source is framed without looking at the list: the result is a valid empty frame */
         if (expect == 0) sim_probe("c17.corruption_not_applicable");
-        else if (corrupt <= 3) { snprintf(g_cdesc, sizeof g_cdesc, "seq %zu of %zu at position %zu: ll %u ml %u offset %u (window %zu, dictionary %zu)", k, l.n, pos, l.s[k].litLength, l.s[k].matchLength, l.s[k].offset, W, s.dict_size); sim_event("corrupt %s", g_cdesc); }
+        else if (corrupt <= 3) { snprintf(g_cdesc, sizeof g_cdesc, "seq %zu of %zu at position %zu: ll %u ml %u offset %u (window %zu, dictionary %zu)", k, l.n, pos, l.s[k].litLength, l.s[k].matchLength, l.s[k].offset, W, dcn); sim_event("corrupt %s", g_cdesc); }
     }
     /* ---- run ---- */
     cap = ZSTD_compressBound(s.in_size) + 4 * (l.nblocks + s.in_size / 1024 + 2) + 64;
@@ -368,14 +374,14 @@ static void exec(const Plan* p) {
     } else {
         if (expect == 1) {
             /* accepted although it had to be refused: show what was emitted */
-            ZSTD_DCtx* d = ZSTD_createDCtx(); uint8_t* back = (uint8_t*)malloc(s.in_size + 1); size_t q; if (s.dict) ZSTD_DCtx_loadDictionary_advanced(d, s.dict, s.dict_size, ZSTD_dlm_byRef, ZSTD_dct_rawContent);
+            ZSTD_DCtx* d = ZSTD_createDCtx(); uint8_t* back = (uint8_t*)malloc(s.in_size + 1); size_t q; if (s.dict) ZSTD_DCtx_loadDictionary_advanced(d, s.dict, s.dict_size, ZSTD_dlm_byRef, structured ? ZSTD_dct_fullDict : ZSTD_dct_rawContent);
             q = ZSTD_decompressDCtx(d, back, s.in_size, dst, ret);
             if (mode <= 3) sim_violation("invalid_list_accepted", "corruption kind %d (%s) accepted with validateSequences=1; emitted frame %s", corrupt, g_cdesc, ZSTD_isError(q) ? "does not decode" : (q == s.in_size && !memcmp(back, s.in, q)) ? "decodes to the source" : "decodes to other bytes");
             sim_violation(pr.fired_kind == 5 ? "invalid_producer_parse_accepted" : "producer_failure_ignored", "producer fault kind %d at call %ld, fallback=%d: call succeeded; emitted frame %s", pr.fired_kind, pr.fired, fallback, ZSTD_isError(q) ? "does not decode" : "decodes");
         }
         if (expect == 0) {
-            sess_check_conformance(dst, ret, s.in, s.in_size, s.dict, s.dict_size, 1, 0, 0, 1, p);
-            sess_check_lib_roundtrip(dst, ret, s.in, s.in_size, s.dict, s.dict_size, 1, 0);
+            sess_check_conformance(dst, ret, s.in, s.in_size, s.dict, s.dict_size, !structured, 0, want_id, 1, p);
+            sess_check_lib_roundtrip(dst, ret, s.in, s.in_size, s.dict, s.dict_size, !structured, 0);
             sim_mark_nontrivial(); sim_probe(mode <= 1 ? "c17.own_parse_roundtrip" : mode <= 3 ? "c17.extracted_roundtrip" : pr.fired ? "c17.fallback_roundtrip" : "c17.producer_roundtrip");
             if (l.nblocks > 1 || s.in_size > bmax) sim_probe("c17.multi_block");
         } else sim_probe("c17.garbage_accepted");
